@@ -14,6 +14,7 @@ def suites : List (String × Suite) := [
   ("registry", Tally.Drv.Registry.suite),
   ("c09", Tally.Drv.C09.suite),
   ("c09lock", Tally.Drv.C09Lock.suite),
+  ("histpass", Tally.Drv.HistPass.suite),
   ("c15", Tally.Drv.C15.suite),
   ("c17", Tally.Drv.C17.suite),
   ("c14", Tally.Drv.C14.suite),
